@@ -83,7 +83,7 @@ def _custom_reduction(values, axis=None):
     return np.max(values, axis=axis) * 0.5 + np.min(values, axis=axis) * 0.5
 
 
-REDUCTIONS = {"mean": np.mean, "median": np.median, "midrange": _custom_reduction}
+REDUCTIONS = {"mean": np.mean, "median": np.median, "midrange": _custom_reduction, "average": np.average}
 
 
 def gen_scalar_spec(tape, tag="E", depth=0, allow_nan_models=False):
